@@ -271,6 +271,8 @@ def _test_kinds(ctx: Any, f: FuncInfo, t: ast.AST) -> List[str]:
                 kinds.append('trailer')
             if x.func.attr == 'startswith' and x.args and isinstance(x.args[0], ast.Constant) and x.args[0].value == '_':
                 kinds.append('underscore')
+            if x.func.attr in ('startswith', 'endswith') and x.args and isinstance(x.args[0], ast.Constant) and x.args[0].value == '-':
+                kinds.append('edge-hyphen')  # `s.startswith('-') or s.endswith('-')`: the other spelling of `'-' in (s[0], s[-1])`
             if x.func.attr in ('search', 'match', 'fullmatch'):
                 base = x.func.value
                 names = [norm(base)]
@@ -386,6 +388,12 @@ def _rule_atoms(ctx: Any, f: FuncInfo) -> Dict[str, Tuple[str, Any, Any]]:
             elif isinstance(x, ast.Call) and k in ('has-letter', 'charset', 'control-chars'):
                 ok_v, bad_v = (Sym('match'), None) if k != 'control-chars' else (None, Sym('match'))
                 out.setdefault(k, (norm(x), ok_v, bad_v))
+            elif isinstance(x, ast.Call) and k == 'edge-hyphen':
+                if k in out:
+                    # the second half of `s.startswith('-') or s.endswith('-')`: a rule of its own
+                    out['edge-hyphen/2'] = (norm(x), False, True)
+                else:
+                    out[k] = (norm(x), False, True)
     return out
 
 
@@ -577,16 +585,39 @@ def txt(ctx: Any) -> List[Ob]:
         raise AnalysisError('anchor vanished: reader loop')
     ok, why = la.while_variant(whiles[0])
     obs.append(ob(R, r, f'while {norm(whiles[0].test)}', 'the reader advances by at least one byte per item (terminates on any bytes)', ok, why))
-    # advance is exactly 1 + length: index += 1 ... index += length, slice [index:index+length] in between
-    augs = [n for n in walk_local_ordered(whiles[0]) if isinstance(n, ast.AugAssign) and isinstance(n.op, ast.Add)]
-    incs = sorted(norm(a.value) for a in augs)
+    # advance is exactly 1 + length: the statements of the loop body that set the index (or a local the index is later set
+    # from), composed in order -- `index += 1; ...; index += length` and `start = index + 1; index = start + length` alike
+    from sa import lf as _lfa
+
+    wl = whiles[0]
+    ivar = norm(wl.test.left) if isinstance(wl.test, ast.Compare) else '?'
     lens = []
-    for st in walk_local_ordered(whiles[0]):
+    for st in walk_local_ordered(wl):
         if isinstance(st, ast.Assign) and isinstance(st.value, ast.Subscript) and not isinstance(st.value.slice, ast.Slice) and isinstance(st.targets[0], ast.Name):
             td = ctx.ty.type_of(r.module.name, st.value.value)
             if td and td[0] == 'inst' and td[1] == 'builtins.bytes':
                 lens.append(st.targets[0].id)
-    obs.append(ob(R, r, f'index += {incs}', 'the reader consumes one length byte plus exactly `length` bytes per item', len(lens) == 1 and incs == sorted(['1', lens[0]])))
+    adv = None
+    if len(lens) == 1:
+        env: Dict[str, Any] = {ivar: _lfa.p_sym('I')}
+        symf = lambda x: 'L' if isinstance(x, ast.Name) and x.id == lens[0] else None  # noqa: E731
+        try:
+            for st in wl.body:
+                if isinstance(st, ast.Assign) and len(st.targets) == 1 and isinstance(st.targets[0], ast.Name) and st.targets[0].id != lens[0]:
+                    try:
+                        env[st.targets[0].id] = _lfa.poly(prog, r.module, st.value, symf, env)
+                    except _lfa.NotLinear:
+                        env.pop(st.targets[0].id, None)
+                        if st.targets[0].id == ivar:
+                            raise
+                elif isinstance(st, ast.AugAssign) and isinstance(st.target, ast.Name) and st.target.id in env and isinstance(st.op, (ast.Add, ast.Sub)):
+                    env[st.target.id] = _lfa.p_add(env[st.target.id], _lfa.poly(prog, r.module, st.value, symf, env), 1 if isinstance(st.op, ast.Add) else -1)
+                elif any(isinstance(x, ast.Name) and x.id == ivar and isinstance(x.ctx, ast.Store) for x in ast.walk(st)):
+                    raise _lfa.NotLinear('the index is set in a nested statement')
+            adv = _lfa.p_add(env[ivar], _lfa.p_sym('I'), -1)
+        except _lfa.NotLinear:
+            adv = None
+    obs.append(ob(R, r, f'{ivar} advances by {_lfa.p_str(adv) if adv is not None else "?"}', 'the reader consumes one length byte plus exactly `length` bytes per item', adv is not None and adv == _lfa.parse_poly('1 + L')))
     return obs
 
 
